@@ -2,7 +2,7 @@
    Proofs/SettingsValue.v transferred to the reference-heap model (the one Model/C19Run.v evaluates
    on the real library's observations) by the refinement theorem of Proofs/SettingsSim.v. *)
 From Coq Require Import List Arith Bool Lia String.
-From ReqV Require Import Model.Settings Gen.CloneTable Proofs.SettingsHeap Proofs.SettingsValue Proofs.SettingsSim.
+From ReqV Require Import Model.Settings Model.LiveSel Gen.CloneTable Proofs.SettingsHeap Proofs.SettingsValue Proofs.SettingsSim.
 Import ListNotations.
 
 Lemma gen_tbl_deep : gen_tbl = deep_tbl.
@@ -163,3 +163,12 @@ Proof.
   destruct witness_api as [A B]. split; [exact A|split; [exact B|]]. vm_compute.
   repeat split; try reflexivity. intros E. inversion E.
 Qed.
+
+(* ---------- settings changed after use: protocol selection with a cached HTTP/2 connection ---------- *)
+Lemma force_governs_regardless_of_cache : forall cached,
+  live_sel gen_guard 1 cached = Some 1 /\ live_sel gen_guard 2 cached = Some 2.
+Proof. intros cached. split; reflexivity. Qed.
+
+(* without the guard a client that talked HTTP/2 before EnableForceHTTP1 keeps using the cached connection *)
+Lemma unguarded_refuted : live_sel {| g_h1guard := false |} 1 true = Some 2.
+Proof. reflexivity. Qed.
